@@ -64,6 +64,8 @@ type FuncContract struct {
 	PanicsUnl *Expr  // extern: panics unless this holds
 	Task      string // closure run by `go`: expression naming the WaitGroup it joins ("" if none)
 	IsTask    bool
+	PanicSafe bool // if the function panics, no pre-existing state has been modified (checked: writes to pre-existing state are the last thing it does)
+	EnsuresT  []*Clause // trusted postconditions: assumed by callers, not proved here (listed in the evidence)
 	Recoverer bool // a deferred closure that calls recover() and thereby stops a panic
 	Recovers  bool // declares: installs a recovering defer before any panicking instruction (checked structurally)
 	Hints     map[string][]*Clause // "call:<pattern>" -> lemma clauses asserted+assumed before that call
@@ -381,6 +383,14 @@ func (cs *Contracts) LoadFile(path, pkgPath string) error {
 			cur.Recovers = true
 		case "recoverer":
 			cur.Recoverer = true
+		case "panicsafe":
+			cur.PanicSafe = true
+		case "ensures_trusted":
+			cl, err := cs.mkClause("ensures_trusted", rest, path, ln)
+			if err != nil {
+				return err
+			}
+			cur.EnsuresT = append(cur.EnsuresT, cl)
 		case "guard":
 			// guard <expr> by <lockexpr>: accesses to the object/cell/map <expr> need <lockexpr> held (C19)
 			i := strings.Index(rest, " by ")
